@@ -85,6 +85,10 @@ def main():
     t0 = time.time()
 
     if args.replay:
+        try:
+            env["PYTHONHASHSEED"] = str(json.load(open(args.replay)).get("hashseed", "0"))      # the hash seed of the shard that found it
+        except Exception:
+            pass
         r = subprocess.run([PY, "-m", "mpv.worker", "--replay", args.replay, prop], env=env)
         sys.exit(r.returncode)
 
@@ -97,8 +101,10 @@ def main():
     for s in range(nshards):
         out = os.path.join(rundir, "shard%d.json" % s)
         log = open(os.path.join(rundir, "shard%d.log" % s), "w")
+        # every shard runs under its own (reproducible) string-hash seed: set / dict-of-str iteration orders differ between shards
+        senv = dict(env, PYTHONHASHSEED=str((args.seed * 1009 + s * 7919) % (2 ** 32)))
         p = subprocess.Popen([PY, "-m", "mpv.worker", prop, args.tier, str(args.seed), str(s), str(nshards), out],
-                             env=env, stdout=log, stderr=subprocess.STDOUT)
+                             env=senv, stdout=log, stderr=subprocess.STDOUT)
         procs.append((s, p, out, log))
     results, inconclusive = [], []
     deadline = time.time() + timeout
